@@ -340,7 +340,7 @@ CHECKS["C18"] = {
             "two thorough) of the drivers of C01-C04, C08-C14, C16, C17, C19, C20 at their quick bounds, i.e. all "
             "operation families incl. every C19 fault position, C14 trait-definition pickle/copy round trips of ~60 "
             "definition kinds and explicit GC events; any sanitizer report, signal or SystemError kills the worker "
-            "and is reported with the journalled case. (ii) a 60-cell reference-neutrality menu (success and every "
+            "and is reported with the journalled case. (ii) a 66-cell reference-neutrality menu (success and every "
             "error exit of set/get/del for every validator kind, properties whose getter/setter raise, failing "
             "defaults, delegates without delegate / with invalid values / prefixes, str-subclass and non-str names, "
             "handlers added, removed or raising during dispatch, an earlier anytrait handler removing a later one, "
